@@ -97,6 +97,8 @@ func runC04(p *core.Prog, r *core.Report) {
 	c08R2(p, r, "C04.R8")
 	// an index entry that is a manifest is copied as a manifest, with its children, never as an opaque blob (shared with C03.R5)
 	c03R5(p, r, "C04.R9")
+	// children before parents in an import as well (shared with C09.R10)
+	importOrderRule(p, r, "C04.R10")
 }
 
 // resolveLit returns the function literal a go statement runs: a literal, or a local variable
